@@ -230,7 +230,7 @@ func main() {
 		d []int
 	}
 	var lists []listT
-	for _, c := range [][]string{{a1}, {a1, a2}, {a1, a2, a3}, {a1, a1}, {a1, bad}, {bad, a1, a2}, {bad}, {"turn:" + a1}, {a1, "turn:" + a2}, {bad, "turn:" + a1}, {"not-an-address"}, {}} {
+	for _, c := range [][]string{{a1}, {a1, a2}, {a1, a2, a3}, {a1, a1}, {a1, bad}, {bad, a1, a2}, {bad}, {"turn:" + a1}, {a1, "turn:" + a2}, {bad, "turn:" + a1}, {"turn:" + a1, "turn:" + a2}, {bad, "turn:" + a1, "turn:" + a2}, {"not-an-address"}, {}} {
 		lists = append(lists, listT{c: c})
 	}
 	// slow paths: a handshake that takes seconds of virtual time (against the 5 s deadline of the
